@@ -927,6 +927,100 @@ def lsan_rhd_leaks(ctx, binary, info):
             ctx.broken_obligation("LeakSanitizer does not report the TimeLine leak that the Lean model states (rhdSimulation_timeline_leaked): model and code disagree", log[-1500:])
 
 
+# =========================================================================== ThreadSanitizer (thorough)
+
+TSAN_DIR = os.path.join(vlib.BUILD, "tsan")
+ARCHER = "/usr/lib/llvm-14/lib/libarcher.so"
+TSAN_ENV = {"TSAN_OPTIONS": "halt_on_error=0:exitcode=0:ignore_noninstrumented_modules=1", "OMP_TOOL_LIBRARIES": ARCHER}
+# g++/libgomp is unusable for this (libgomp's barriers are invisible to TSan: > 100 false reports
+# per run on the unchanged code).  clang++-14 + libomp + the Archer OMPT tool understands the OpenMP
+# synchronisation; what is left on the unchanged code are the plain (non-atomic) accesses the
+# design knowingly makes outside locks (DESIGN §4), listed here by file and function:
+TSAN_KNOWN = [
+    (r"TaskQueue\.hpp", r"^(size|add_task|TaskQueue::get_task\(.*|TaskQueue::try_get_task\(.*)$", "queue size / task slot read outside the queue lock (DESIGN §4)"),
+    (r"DensitySubGrid\.hpp", r"^(get_owning_thread|set_owning_thread|set_largest_buffer|get_largest_buffer_size)$", "scheduling hints, plain reads/writes by design"),
+    (r"\w*Tracker\.hpp", r"::count_photon\(", "trackers attached to a subgrid and to its copies are counted into by several threads without a lock (lost counts, no invalid memory access; reported)"),
+]
+
+
+def tsan_binary():
+    if not shutil.which("clang++-14") or not os.path.exists(ARCHER):
+        raise RuntimeError("clang++-14 / libarcher.so not installed")
+    with vlib.Lock("tsan"):
+        os.makedirs(TSAN_DIR, exist_ok=True)
+        t0 = time.time()
+        binary = os.path.join(TSAN_DIR, "rundir", "CMacIonize")
+        if os.path.exists(os.path.join(TSAN_DIR, "build.ninja")):
+            rc, out = vlib.sh(["cmake", TSAN_DIR])
+        else:
+            rc, out = vlib.sh(["cmake", "-G", "Ninja", "-S", vlib.REPO, "-B", TSAN_DIR, "-DCMAKE_CXX_COMPILER=clang++-14", "-DCMAKE_C_COMPILER=clang-14",
+                               "-DCMAKE_BUILD_TYPE=Release", "-DCMAKE_CXX_FLAGS=-Wno-cpp -D%s -fsanitize=thread -fno-omit-frame-pointer -g1" % vlib.GUARD,
+                               "-DCMAKE_CXX_FLAGS_RELEASE=-O1 -DNDEBUG -Wno-error", "-DCMAKE_EXE_LINKER_FLAGS=-fsanitize=thread"])
+        if rc != 0:
+            raise RuntimeError("cmake configure of the ThreadSanitizer build failed:\n" + out[-2000:])
+        rc, dry = vlib.sh(["ninja", "-C", TSAN_DIR, "-n", "CMacIonize"])
+        todo = [l for l in dry.split("\n") if "Building CXX object" in l and "CompilerInfo.cpp.o" not in l]
+        if rc != 0 or todo or not os.path.exists(binary + ".c12run"):
+            rc, out = vlib.sh(["cmake", "--build", TSAN_DIR, "-j16", "--target", "CMacIonize"])
+            if rc != 0:
+                raise RuntimeError("ThreadSanitizer build failed:\n" + out[-4000:])
+            private_copy(binary)
+        return binary + ".c12run", time.time() - t0
+
+
+def tsan_runs(ctx, plan):
+    """a few multi-threaded runs under ThreadSanitizer; every data race that is not one of the
+    known unlocked accesses is a violation"""
+    try:
+        binary, secs = tsan_binary()
+    except RuntimeError as e:
+        ctx.cov["tsan"] = "not run: " + str(e)[:200]
+        return
+    byname = {it["name"]: it for it in plan}
+    items = [dict(byname[n]) for n in ("rhd-race-live-8t", "tbi-race-trackers-8t", "rhd-stress-small-pools") if n in byname]
+    items.insert(0, dict(name="tsan-mask", kind="tsan", threads=4, stages=[(["--task-based-rhd"], [])],
+                         param=rhd_param(dict(layout=(4, 4, 2), cells=(2, 3, 2), mask=True, mask_radius=0.12, turbulence=True, per=(True, True, False), live=True,
+                                              total_time=0.0005, snaptime=0.0005))))
+    stats = {"build_s": round(secs, 1), "runs": 0, "reports": 0, "known": {}, "new": 0}
+    for it in items:
+        res, d = run_binary(binary, it["param"], it["stages"][0][0], 4, aux=it.get("aux"), env=TSAN_ENV, timeout=240)
+        shutil.rmtree(d, ignore_errors=True)
+        stats["runs"] += 1
+        ctx.count()
+        cmd = "CMacIonize --params run.param --threads 4 %s --dirty" % " ".join(it["stages"][0][0])
+        if res["timed_out"] or res["rc"] != 0:
+            ctx.violation("run:tsan:%s" % it["name"], "%s [tsan binary]: %s; command: %s" % (it["name"], "did not finish" if res["timed_out"] else "exit status %d" % res["rc"], cmd),
+                          {"run": it["name"], "binary": "tsan", "param": it["param"], "cmd": cmd, "aux_files": it.get("aux") or {}})
+            continue
+        for blk in res["log"].split("WARNING: ThreadSanitizer")[1:]:
+            stats["reports"] += 1
+            m = re.search(r"SUMMARY: ThreadSanitizer: ([\w -]+?) (\S+?):(\d+)(?::\d+)? in ([^\n]*)", blk)
+            if not m:
+                continue
+            kind, path, line, func = m.group(1), m.group(2), int(m.group(3)), m.group(4).strip()
+            fname = os.path.basename(path)
+            known = None
+            for (fre, fure, why) in TSAN_KNOWN:
+                if re.fullmatch(fre, fname) and re.search(fure, func):
+                    known = fname + ":" + func.split("(")[0]
+            if known is None and "omp_outlined" in func:
+                try:
+                    src = open(os.path.join(vlib.REPO, "src", fname), encoding="utf-8").read().split("\n")[line - 1]
+                except (OSError, IndexError):
+                    src = ""
+                if "global_run_flag" in src:
+                    known = fname + ":global_run_flag"
+            if known:
+                stats["known"][known] = stats["known"].get(known, 0) + 1
+                continue
+            stats["new"] += 1
+            stack = [re.sub(r"\s*\(CMacIonize\+0x[0-9a-f]+\).*", "", l.strip()) for l in blk.split("\n") if re.match(r"\s+#[0-3] ", l)][:8]
+            ctx.violation("run:tsan:%s:%s" % (fname, func.split("(")[0][:60]),
+                          "%s [tsan binary, 4 threads]: ThreadSanitizer: %s at %s:%d in %s; command: %s" % (it["name"], kind, fname, line, func, cmd),
+                          {"run": it["name"], "binary": "tsan", "param": it["param"], "cmd": cmd, "aux_files": it.get("aux") or {}, "stacks": stack})
+    ctx.cov["tsan"] = stats
+
+
 # =========================================================================== entry points
 
 # leaks that the Lean theorems state per class (Props/C12.lean): not reported by the harness
@@ -986,6 +1080,8 @@ def run(ctx):
         whole_runs(ctx, abin, "asan", sub, env=ASAN_ENV, timeout=75)
         if ctx.thorough and info is not None:
             lsan_rhd_leaks(ctx, abin, info)
+        if ctx.thorough:
+            tsan_runs(ctx, plan)
     except RuntimeError as e:
         # no sanitizer binary (it does not build): valgrind memcheck on the normal binary for three
         # tiny runs instead, and say so
@@ -1018,6 +1114,9 @@ def replay(ctx, path):
         if label == "asan":
             binary, _ = asan_binary()
             env = ASAN_ENV
+        elif label == "tsan":
+            binary, _ = tsan_binary()
+            env = TSAN_ENV
         else:
             binary, env = normal_binary(), None
             if label == "valgrind":
